@@ -7,6 +7,7 @@ import (
 	"go/types"
 	"sort"
 	"strings"
+	"sync"
 
 	"golang.org/x/tools/go/ssa"
 )
@@ -311,7 +312,7 @@ func describeD(v ssa.Value, depth int) string {
 				return describeD(ia.X, depth+1) + "[" + describeD(ia.Index, depth+1) + "]"
 			}
 			if a, ok := x.X.(*ssa.Alloc); ok {
-				return "local:" + a.Comment
+				return "local:" + allocName(a)
 			}
 			return "*" + describeD(x.X, depth+1)
 		case token.NOT:
@@ -371,7 +372,7 @@ func describeD(v ssa.Value, depth int) string {
 					k++
 				}
 			}
-			return fmt.Sprintf("loopvar:%s@%s#%d", x.Comment, x.Block().Comment, k)
+			return fmt.Sprintf("loopvar:%s@%s#%d", loopVarName(x), x.Block().Comment, k)
 		}
 		var es []string
 		for _, e := range x.Edges {
@@ -387,7 +388,7 @@ func describeD(v ssa.Value, depth int) string {
 		sort.Strings(es)
 		return "phi{" + strings.Join(dedup(es), "|") + "}"
 	case *ssa.Alloc:
-		return "alloc:" + x.Comment
+		return "alloc:" + allocName(x)
 	case *ssa.MakeClosure:
 		return "closure:" + describeD(x.Fn, depth+1)
 	case *ssa.Next:
@@ -953,4 +954,81 @@ func firstPos(b *ssa.BasicBlock) token.Pos {
 		}
 	}
 	return token.NoPos
+}
+
+// Names of local storage are independent of the identifiers chosen in the source: a variable is named by its type and
+// its ordinal among the function's variables of that type (alloc:parser, alloc:parser#2), a loop-carried variable by
+// its type and ordinal in its loop header. Renaming a local changes no description. go/ssa's own labels (complit,
+// varargs, slicelit, new, makeslice, rangeindex, ...) are kept.
+var syntheticAlloc = map[string]bool{"complit": true, "varargs": true, "slicelit": true, "new": true, "makeslice": true, "": true, "rangeindex": true, "rangeiter": true, "defers": true}
+
+var allocNames = map[*ssa.Alloc]string{}
+var allocNamesMu sync.Mutex
+
+func allocName(a *ssa.Alloc) string {
+	if syntheticAlloc[a.Comment] {
+		return a.Comment
+	}
+	allocNamesMu.Lock()
+	defer allocNamesMu.Unlock()
+	if n, ok := allocNames[a]; ok {
+		return n
+	}
+	f := a.Parent()
+	count := map[string]int{}
+	assign := func(x *ssa.Alloc) {
+		if syntheticAlloc[x.Comment] {
+			return
+		}
+		if _, done := allocNames[x]; done {
+			return
+		}
+		t := typeShort(derefType(x.Type()))
+		count[t]++
+		if count[t] == 1 {
+			allocNames[x] = t
+		} else {
+			allocNames[x] = fmt.Sprintf("%s#%d", t, count[t])
+		}
+	}
+	if f != nil {
+		for _, l := range f.Locals {
+			assign(l)
+		}
+		for _, b := range f.Blocks {
+			for _, in := range b.Instrs {
+				if x, ok := in.(*ssa.Alloc); ok {
+					assign(x)
+				}
+			}
+		}
+	}
+	if n, ok := allocNames[a]; ok {
+		return n
+	}
+	return typeShort(derefType(a.Type()))
+}
+
+func loopVarName(phi *ssa.Phi) string {
+	if syntheticAlloc[phi.Comment] {
+		return phi.Comment
+	}
+	t := typeShort(phi.Type())
+	k := 0
+	for _, in := range phi.Block().Instrs {
+		q, ok := in.(*ssa.Phi)
+		if !ok {
+			break
+		}
+		if q == phi {
+			break
+		}
+		if !syntheticAlloc[q.Comment] && isLoopCarried(q) && typeShort(q.Type()) == t {
+			k++
+		}
+	}
+	if k == 0 {
+		return t
+	}
+	return fmt.Sprintf("%s.%d", t, k+1)
 }
